@@ -367,17 +367,24 @@ theorem Running.exit_pc {b : Base} {s : St} {top : Act} {rest : List Act} (h : R
     · cases hs
   · cases hs
 
+/-- the instructions that enter or leave an activation -/
+def isCall : Instr → Bool
+  | .callArr _ => true
+  | .callExpr _ _ => true
+  | .ret => true
+  | _ => false
+
 /-- **One instruction other than a call or `ret`.** -/
 theorem exec_simple_ok (n : Nat) (b : Base) (s s' : St) (top : Act) (rest : List Act) (i : Instr)
     (hw : WF s) (hr : Running b s top rest) (hf : (fnOf s s.curfunc).code[s.pc.toNat]? = some i)
-    (hs : match i with | .callArr _ | .callExpr _ _ | .ret => False | _ => True)
+    (hs : isCall i = false)
     (hex : (exec (n + 1) i).run s = (.ok (), s')) : StepRes b s s' top rest := by
   have hio := hr.instrOK hf
   have hpc := hr.pc
   cases i with
-  | callArr k => exact absurd hs id
-  | callExpr c a => exact absurd hs id
-  | ret => exact absurd hs id
+  | callArr k => cases hs
+  | callExpr c a => cases hs
+  | ret => cases hs
   | label =>
     have hc := refines_label n s s' hpc hf hex
     simp only [exec] at hex; vmsimp_at hex; cases hex
